@@ -19,14 +19,14 @@ CLAIMS = {
  "C05": "lock/try_lock/unlock accounting for every count value; register-before-count ordering; unlock hands over to exactly one live waiter incl. abandoned waiters; a cancelled waiter forwards the hand-off exactly once under every interleaving of one concurrent unpark_one; with cancel disabled the hand-off is kept and not also forwarded (found and fixed D7). Fairness/liveness not decided.",
  "C06": "mpsc/spsc/mpmc channel cores: send makes the value available before it wakes/posts, a blocked or about-to-block receiver is woken by the send under every placement of one concurrent send relative to the receiver's steps, values come out once and in order through the abstract queue contract (queue FIFO itself: C03). Multi-sender/multi-receiver interleavings beyond one concurrent action are NOT decided.",
  "C07": "disconnect: receiver never parks once the last sender is past its wake-up (mpsc, every placement of the drop), drain-before-Disconnected, spsc coroutine subscribe re-checks every wake condition (found and fixed D3a), mpmc disconnect permit is sticky (found and fixed D3b), send after receiver drop returns the value.",
- "C08": "duration conversion used by every coroutine-side timed wait: never lost, never early, within one tick for all durations (Kani bit-precise + Verus unbounded, found and fixed D1); park hands the caller's duration to the timer unchanged. Timer-thread scheduling order and wall-clock promptness are NOT decided by these contracts.",
+ "C08": "duration conversion used by every coroutine-side timed wait: never lost, never early, within one tick for all durations (Kani bit-precise + Verus unbounded, found and fixed D1); park hands the caller's duration to the timer unchanged; sleep arms one timer with d <= d' < d + 1ms and consumes the time-out result; add_timer's deadline is exactly now + d (Verus, verbatim snippet); the timer thread's pop_timeout never fires an entry that has not expired and misses none that has (two entries, all times), the heap order puts the earliest expiry on top. TimeOutList::schedule_timer / TimerThread::run (the loop that combines these) and wall-clock promptness are NOT decided.",
  "C09": "cancel/park interaction: subscribe re-checks the cancel bit after registering, cancel takes the coroutine exactly once and passes the Canceled result, result consumed before return; the cancel state word (disable/enable nesting, cancel bit kept while disabled, check_cancel panics only when enabled and not unwinding; bounded depth 5); every lock-like primitive forwards a hand-off/permit/notification that raced with the cancellation exactly once (Mutex, RwLock, Semphore, SyncFlag, Condvar), never waits again after it has seen the hand-off, and releases the mutex before the cancel panic without poisoning (poison truth table). Exactly-once drop of stack-owned values during unwinding is NOT decided (generator shim).",
  "C10": "one-step value contracts from every non-negative value (complete induction basis for permit conservation), register-before-decrement, post wakes exactly one and re-posts for abandoned waiters, aborted waits return the permit exactly once under every interleaving with one concurrent wakeup; SyncFlag latch for every counter value incl. late decrements.",
  "C11": "Condvar wait: enqueue-before-unlock-before-park, mutex re-acquired before every return, cancel disable/enable balanced, notification forwarded exactly once on time-out/cancel; notify_one/notify_all on queued waiters; Barrier leader arithmetic for every n, count and generation; WaitGroup drop/notify accounting (wait path bounded, thorough tier).",
  "C12": "guard accounting for every abstract state x clean/poisoned x non-blocking operation (found and fixed D2a), guard only if the caller's own CAS won under interference (found and fixed D2b), cancelled lock forwards the hand-off exactly once, cancelled read releases the reader mutex before the cancel panic. Fairness not decided.",
  "C13": "poison truth table (poisoned iff a panic started under the guard and it is not a cancellation unwind); delivery of exactly the panic payload / Cancel by join(); the panic branch of run_coroutine stores the payload before it triggers the join; a panic passing through a scope leaves the owner's cancel state as it found it (scoped join). Worker survival and stack reuse after a panic are NOT decided (generator shim).",
  "C14": "Join::wait returns only when the joined coroutine has finished, also when the waiter's park is ended by a cancellation (found and fixed D4); the scoped join (JoinState::join) joins its child exactly once with the owner's cancellation disabled and restored afterwards, for every combination of owner context / child result / owner unwinding; Scope::drop_all runs every deferred join exactly once in order and keeps the not-yet-run joins linked in the scope while one runs; dropping a Cqueue cancels the running select coroutines and polls without time-out until poll reports Finished. The re-raise through resume_unwind, scope() itself and the macros are not under contract.",
- "C15": "NARROW claim: the passed-in result (time-out / cancel error) is consumed before park returns and before the cancel panic, so it cannot leak into the next coroutine on a pooled stack (C02.10), and the panic branch of run_coroutine hands the coroutine to the recycler exactly once after the join trigger (C13.1b). Privacy of LocalKey values (HashMap) and freshness of the CoroutineLocal attached by spawn are NOT decided: the life-cycle harnesses exceed CBMC's limits (DESIGN.md §9.2 item 7).",
+ "C15": "NARROW claim: the passed-in result (time-out / cancel error) is consumed before park returns, before sleep returns and before the cancel panic, so it cannot leak into the next blocking call or the next coroutine on a pooled stack (C02.10, C08.4a); the panic branch of run_coroutine hands the coroutine to the recycler exactly once after the join trigger (C13.1b); the stack pool hands a recycled stack to at most one spawn (C15.4a, bounded). Privacy of LocalKey values (HashMap) and freshness of the CoroutineLocal attached by spawn are NOT decided: the life-cycle harnesses exceed CBMC's limits (DESIGN.md §9.2 item 7).",
  "C16": "poll's register-then-recheck against one select coroutine sending or ending at each of the poller's observation points (never parks unregistered or with an event queued; returns exactly the event sent, its bottom half started exactly once; Done events are not returned and trigger check_panic once; Finished only with the counter at zero); sender side pushes the event with the coroutine inside before waking; Cqueue::drop cancels exactly the unfinished select coroutines, then drains with poll(None) until Finished. Multi-arm schedules, time-outs, check_panic's re-raise and the macros are NOT decided.",
  "C17": "every socket operation struct under src/io/sys/unix/net (read, write, peek, vectored write, TCP/Unix accept, TCP/Unix connect, UDP/Unix datagram send and receive). Worker side (subscribe, complete per operation): coroutine published before the readiness flag is re-read, an edge that raced ahead resumes it exactly once, otherwise it stays published for the selector; the selector side hands it over exactly once. Caller side (done): flag cleared before every syscall, suspension only with the flag clear, no attempt after a final result, kernel result verbatim — read/write/peek for every script of <= 3 attempts (bounded), the others for concrete scripts (bounded; the success path of accept/connect is not under contract). Vectored-write done loop, the epoll loop, kernel semantics, byte-stream integrity above the operation structs and the thread-context branch are NOT under contract.",
  "C18": "time-out conversion read by every I/O time-out (AtomicDuration::get) never lost / never early; timer handle removed and handed to del_timer after a timed park; for every socket operation: I/O timer armed before the coroutine is published and iff a time-out is set, cancel re-checked after registering (a cancel that raced ahead reschedules the coroutine once); EventData::schedule / fast_schedule disarm the timer entry (null the back pointer) before removing it, so a lost removal race cannot time out a later operation; timeout_handler resumes the blocked coroutine once with TimedOut unless disarmed. The epoll loop and the timer thread are not under contract.",
